@@ -106,21 +106,34 @@ def run_schedule(case):
     logging.getLogger('cache').handlers = [logging.NullHandler()]
     sched = Scheduler()
     d = tempfile.mkdtemp(prefix='tcverif-conc-')
-    orig_lock, orig_load, orig_open, orig_replace = tc.FileLock, tc.JsonCache.load_value, Path.open, Path.replace
+    orig_lock, orig_load, orig_open, orig_replace, orig_mkdir = tc.FileLock, tc.JsonCache.load_value, Path.open, Path.replace, Path.mkdir
     try:
         cache = tc.JsonCache(Path(d) / 'c')
         key = 'the key'
+        keys = case.get('keys') or [key] * len(case['callers'])      # per caller (keys of one shard directory)
+        key = keys[0]
         target = cache.filepath(key)
+        targets = [cache.filepath(k) for k in keys]
+        assert all(t.parent == target.parent for t in targets)
         if case['init'] == 'full':
-            target.write_text(json.dumps({'key': key, 'value': INIT_VALUE}))
+            for k, t in zip(keys, targets):
+                t.write_text(json.dumps({'key': k, 'value': INIT_VALUE}))
+        elif case.get('fresh_dir'):
+            target.parent.rmdir()          # a key that was never used: its shard directory does not exist yet
         tc.FileLock = lambda *a, **k: CoopLock(sched)
+
+        def pmkdir(self, *a, **k):
+            if self == target.parent and getattr(sched.tls, 'tid', None) is not None:
+                sched.point('mkdir')
+            return orig_mkdir(self, *a, **k)
+        Path.mkdir = pmkdir
 
         def load_value(self, filepath, k):
             sched.point('load')
             return orig_load(self, filepath, k)
 
         def preplace(self, dest):
-            if Path(dest) == target and getattr(sched.tls, 'tid', None) is not None:
+            if Path(dest) in targets and getattr(sched.tls, 'tid', None) is not None:
                 sched.point('replace')
             return orig_replace(self, dest)
 
@@ -138,6 +151,7 @@ def run_schedule(case):
             sched.tls.tid = tid
             try:
                 sched.point('acquire0')      # PStart: wait for the first grant before doing anything
+                key = keys[tid]
                 if kind == 'get':
                     r = cache.get(key)
                     results[tid] = 'novalue' if r is tc.NO_VALUE else ['value', r]
@@ -184,9 +198,10 @@ def run_schedule(case):
         for th in threads:
             th.join(5)
         return dict(trace=trace, states=states, results=[results.get(t) for t in range(len(threads))],
-                    computed=computed, final=file_state(target))
+                    computed=computed, final=file_state(target), finals=[file_state(t) for t in targets])
     finally:
         tc.FileLock, tc.JsonCache.load_value, Path.open, Path.replace = orig_lock, orig_load, orig_open, orig_replace
+        Path.mkdir = orig_mkdir
         shutil.rmtree(d, ignore_errors=True)
 
 
@@ -199,7 +214,7 @@ def model_schedule(case, trace):
         per.setdefault(tid, []).append(i)
     seen_acq = {}
     for i, (tid, action) in enumerate(trace):
-        if action == 'acquire0':
+        if action in ('acquire0', 'mkdir'):
             continue
         sched.append(tid)
         if action == 'acquire' and not seen_acq.get(tid):
@@ -242,6 +257,11 @@ Definition conc_model (c : fstate * list (kind * nat) * list nat) : list (option
             dict(init='full', callers=[dict(kind='goc', force=False), dict(kind='goc', force=True)], seed=1, script=window),
             dict(init='full', callers=[dict(kind='get'), dict(kind='goc', force=True)], seed=1, script=window),
             dict(init='absent', callers=[dict(kind='goc', force=False), dict(kind='goc', force=False)], seed=2),
+            # two and three callers start at the same moment on a key that was never used (no directory yet)
+            dict(init='absent', callers=[dict(kind='goc', force=False), dict(kind='goc', force=False)], seed=4, late_start=True,
+                 fresh_dir=True, script=[0, 1, 0, 1]),
+            dict(init='absent', callers=[dict(kind='get'), dict(kind='goc', force=False), dict(kind='get')], seed=5, late_start=True,
+                 fresh_dir=True, script=[0, 1, 2, 2, 1, 0]),
             # the second call begins while the first one has written its entry aside and not yet published it
             dict(init='absent', callers=[dict(kind='goc', force=False), dict(kind='goc', force=False)], seed=3, late_start=True,
                  script=[0, 0, 0, 0, 0, 0, 0, 1, 0, 0, 1, 1, 1, 1]),
@@ -259,6 +279,8 @@ Definition conc_model (c : fstate * list (kind * nat) * list nat) : list (option
                 callers.append(dict(kind='get') if r < 0.3 else dict(kind='goc', force=rng.random() < 0.35))
             out.append(dict(init=rng.choice(['absent', 'full']), callers=callers, seed=rng.randrange(10 ** 9),
                             late_start=rng.random() < 0.5))
+            if out[-1]['init'] == 'absent' and rng.random() < 0.5:
+                out[-1]['fresh_dir'] = True       # never-used key: the callers also race for its directory
         return out
 
     def run_impl(self, case):
